@@ -186,3 +186,53 @@ Proof.
     destruct (memN e want_codes); discriminate. }
   destruct (remoter_handshake (hs_of hs ca)); cbn; subst; auto. easy.
 Qed.
+
+(* ---------- server pass in which no answer is a re-raised code: nobody is removed ---------- *)
+
+Definition no_raise_recv (c : cfg) (k : rres) : bool :=
+  match k with
+  | RData _ => true
+  | RFail e => match classify (kd c) DRx e with Raise => false | _ => true end
+  end.
+
+Lemma service_receives_ok : forall c ks s, forallb (no_raise_recv c) ks = true ->
+  snd (fst (service_receives c s ks)) = Ok tt.
+Proof.
+  intros c ks. induction ks as [|k ks IH]; intros s H; cbn [service_receives].
+  - destruct (gate c s); reflexivity.
+  - cbn in H. apply andb_true_iff in H. destruct H as [Hk Hks].
+    destruct (gate c s); [|reflexivity].
+    unfold receive. destruct k as [d|e].
+    + destruct d as [|b d]; [reflexivity|].
+      specialize (IH (rx_extend (moved c DRx (b :: d) s) (b :: d)) Hks).
+      destruct (service_receives c (rx_extend (moved c DRx (b :: d) s) (b :: d)) ks) as [[s2 r2] n2]. exact IH.
+    + cbn in Hk. destruct (classify (kd c) DRx e); try discriminate; reflexivity.
+Qed.
+
+Definition served (c : cfg) (io : list (N * script)) (x : N * conn) : N * conn :=
+  (fst x, st (service_sends c (st (service_receives c (snd x) (recvs_of io (fst x)))) (send_of io (fst x)))).
+
+Lemma alone_served : forall c io x,
+  forallb (no_raise_recv c) (recvs_of io (fst x)) = true -> alone c io x = [served c io x].
+Proof.
+  intros c io [ca s] H. unfold alone, alone_recv, served, alone_send. cbn [fst snd] in *.
+  pose proof (service_receives_ok c _ s H) as E. unfold st.
+  destruct (service_receives c s (recvs_of io ca)) as [[s1 r1] n1]. cbn in E. subst r1. reflexivity.
+Qed.
+
+Lemma flat_map_singleton : forall A B (f : A -> list B) (g : A -> B) l,
+  (forall x, In x l -> f x = [g x]) -> flat_map f l = map g l.
+Proof.
+  intros A B f g l H. induction l as [|a l IH]; cbn; auto.
+  rewrite (H a (or_introl eq_refl)), IH; auto. intros x Hx. apply H. now right.
+Qed.
+
+Theorem server_no_escape : forall c p sv,
+  (forall ca, no_raise_send c (send_of (p_io p) ca) = true) ->
+  (forall ca, forallb (no_raise_recv c) (recvs_of (p_io p) ca) = true) ->
+  snd (service c p sv) = Ok tt /\
+  ixes (fst (service c p sv)) = map (served c (p_io p)) (present p sv).
+Proof.
+  intros c p sv Hs Hr. destruct (isolation c p sv Hs) as [A B]. split; auto.
+  rewrite B. apply flat_map_singleton. intros x _. apply alone_served. apply Hr.
+Qed.
